@@ -111,6 +111,25 @@ func runStandins(repoDir, verif, prop, tier string, seed int, known []KnownFindi
 				knownHits = append(knownHits, hits...)
 			}
 		}
+		// A run that ended without reporting a failing input because the harness could not be
+		// built or ran out of time decides nothing: it is recorded as inconclusive (and printed),
+		// never reported as a violation - a violation needs a failing input or a failed obligation.
+		if !ok && !strings.Contains(out, "REPLAY-FAIL") && !strings.Contains(out, "\npanic: ") || (!ok && strings.Contains(out, "panic: test timed out") && !strings.Contains(out, "REPLAY-FAIL")) {
+			reason := "no verdict"
+			switch {
+			case strings.Contains(out, "test timed out"):
+				reason = "the bounded exploration did not finish within its time limit"
+			case strings.Contains(out, "[build failed]"):
+				reason = "the oracle could not be built against the current tree"
+			}
+			if reason != "no verdict" {
+				rec["passed"] = false
+				rec["inconclusive"] = reason
+				records = append(records, rec)
+				fmt.Printf("NOTE bounded stand-in %s is inconclusive: %s\n", s.Run, reason)
+				continue
+			}
+		}
 		rec["passed"] = ok
 		records = append(records, rec)
 		if !ok {
